@@ -335,13 +335,15 @@ def run(tier, seed):
     vlib.conformance(o, FAMILY, "FrostTrace", "FrostTrace.cfg", PKG, p2p, tag="p2p", **kw)
     if thorough:
         vlib.conformance(o, FAMILY, "FrostTrace", "FrostTrace.cfg", PKG, full_schedules(seed, 2), tag="full", **kw)
-    # binding negative controls on recorded traces
-    tr = vlib.split_traces(vlib.read_ndjson(vlib.workdir(PID) + "/trace_random.ndjson"))
-    tr.sort(key=lambda t: (t[0]["V"] < 2, len(t)))
-    nst = len(o.selftests)
-    vlib.binding_selftest(o, FAMILY, "FrostTrace", "FrostTrace.cfg", tr, mutators())
-    if len(o.selftests) < nst + len(mutators()) and not o.violations:
-        raise vlib.Infra("binding self-test: some negative control found no applicable trace")
+    # binding negative controls on recorded (accepted, complete) traces
+    if not o.violations:
+        tr = [t for t in vlib.split_traces(vlib.read_ndjson(vlib.workdir(PID) + "/trace_random.ndjson"))
+              if t and t[-1].get("ev") == "Check"]
+        tr.sort(key=lambda t: (t[0]["V"] < 2, len(t)))
+        nst = len(o.selftests)
+        vlib.binding_selftest(o, FAMILY, "FrostTrace", "FrostTrace.cfg", tr, mutators())
+        if len(o.selftests) < nst + len(mutators()):
+            raise vlib.Infra("binding self-test: some negative control found no applicable trace")
     return vlib.finish(o, "exploration", RULE, ASSUMPTIONS)
 
 
